@@ -3,7 +3,7 @@ from __future__ import annotations
 import abc
 import logging
 from abc import ABC
-from asyncio import CancelledError, Future, gather
+from asyncio import CancelledError, Future, current_task, gather
 from contextlib import contextmanager, suppress
 from random import random
 from threading import Lock
@@ -413,6 +413,9 @@ class RequestCache(TaskManager):
                 for future, _ in cache.managed_futures:
                     future.cancel()
             self._identifiers.clear()
+
+        # We may be running inside one of our own tasks: don't wait for ourselves.
+        tasks = [t for t in tasks if t is not current_task()]
 
         if tasks:
             with suppress(CancelledError):
